@@ -93,3 +93,9 @@ func lookupSorter(name string) (sorting.NameValueSorter, error) {
 	}
 	return nil, errors.New("unknown sort")
 }
+
+// SortsByValue is true when the named sort orders by the (changing) value rather than by the name
+func SortsByValue(fullName string) bool {
+	name, _, err := parseSort(fullName)
+	return err == nil && name == "value"
+}
